@@ -348,6 +348,18 @@ def orchestrate(pid, tier, seed, jobs=None, replay=None):
         agg['violations'].extend(r['violations'])
         agg['harness_errors'].extend(r['harness_errors'])
         agg['skipped_for_time'] += r['skipped_for_time']
+    if not agg['samples']:
+        # no worker recorded a written-out case (e.g. the sampled descriptor was outside the domain): fall back to the
+        # descriptors of cases that were actually executed, taken from the journals
+        for mode, k, p, log, sub in procs:
+            jp = os.path.join(sub, 'journal-%d.txt' % k)
+            if os.path.exists(jp):
+                lines = [l for l in open(jp).read().splitlines() if l and not l.startswith('done')]
+                for l in lines[:2]:
+                    agg['samples'].append({'case_descriptor': l, 'seed': seed, 'mode': mode,
+                                           'note': 'inputs are regenerated from (seed, property, kind, idx); see vlib/props/%s.py' % pid.lower()})
+            if len(agg['samples']) >= 3:
+                break
     # worker crashes: a native crash on an in-domain case is a violation (memory safety);
     # a Python-level death of the worker is a harness problem => inconclusive
     for c in crashed:
